@@ -1,15 +1,22 @@
-(* Props/C15Known.v - refutations: for the flag claimed `true` in Actual/DispatchActual.v a concrete input on
-   which the faithful model differs from the specification (closed by vm_compute).  The same inputs are in
-   corpus/C15 and are replayed on the implementation on every run. *)
+(* Props/C15Known.v - no flag of Actual/DispatchActual.v is a listed defect any more.
+   q_shebang_any_ext was repaired by fix 2639201 (the shebang fallback applies to extensionless files only); its old
+   witness is kept as a regression: under the claimed (faithful) vector it now meets the specification.
+   The same input is in corpus/C15 and is replayed on the implementation on every run. *)
 From TL Require Import Lib.Base Model.DispatchTypes Gen.DispatchGen Model.Dispatch Model.DispatchRun Actual.DispatchActual.
 
 Definition w_tab : atab :=
   [(("nesting.excessive-depth", "python"), [("nesting.excessive-depth", 1)]);
    (("lbyl", "python"), [("lbyl.dict-key-check", 2)])].
 
-(* notes.txt starting with a python shebang is linted as Python although .txt is not a recognised type *)
+(* notes.txt starting with a python shebang: .txt is not a recognised type, nothing may be reported *)
 Definition w_txt : file := mk_file "notes.txt" "#!/usr/bin/env python" true true.
-Theorem C15_shebang_any_ext_refuted :
-  cfg_clean [] = true /\
-  run_cmd dispatch_actual "nesting" [] w_tab w_txt <> Ok (spec_out "nesting" w_tab w_txt).
-Proof. vm_compute. split; [reflexivity|discriminate]. Qed.
+Example C15_shebang_any_ext_regression :
+  cfg_clean [] = true /\ detect dispatch_actual w_txt = "unknown" /\
+  run_cmd dispatch_actual "nesting" [] w_tab w_txt = Ok (spec_out "nesting" w_tab w_txt) /\
+  spec_out "nesting" w_tab w_txt = [].
+Proof. vm_compute. repeat split; reflexivity. Qed.
+
+(* the extensionless script keeps being analysed as Python *)
+Example C15_shebang_extensionless_regression :
+  run_cmd dispatch_actual "nesting" [] w_tab (mk_file "script" "#!/usr/bin/env python" true true) = Ok [("nesting.excessive-depth", 1)].
+Proof. vm_compute. reflexivity. Qed.
